@@ -2,6 +2,7 @@
    WF n p: both bounds have n entries, are sorted, and left <= right at every step (the support is then [first left, last right]). *)
 From Coq Require Import Reals List Arith Lra.
 From PUN Require Import Base.Num Model.Interval Model.Pbox Model.PboxArith Model.PExpr Proofs.ListR Proofs.PboxWF Proofs.WFExpr.
+From PUN Require Import Gen.GenCtor Proofs.CtorTie.
 Import ListNotations.
 Open Scope R_scope.
 
@@ -10,6 +11,12 @@ Open Scope R_scope.
 Theorem C04_constructor steps plo phi b (l r : list R) p :
   mk_staircase_gen RN steps plo phi b l r = Ok p -> WF steps p.
 Proof. exact (mk_total_wf steps plo phi b l r p). Qed.
+(* TIE: the constructor of the model (exchange of reversed bounds, normalisation of the lengths, equal lengths, monotone bounds,
+   no crossing) and the step-wise operations are the definitions recognised in the source on every run (Gen/GenCtor.v) *)
+Theorem C04_constructor_is_translated (N : Num) (steps : nat) (p_lo p_hi : N) lists l r :
+  gen_mk_staircase_gen N steps p_lo p_hi lists l r = mk_staircase_gen N steps p_lo p_hi lists l r.
+Proof. exact (gen_constructor_is_model N steps p_lo p_hi lists l r). Qed.
+
 Print Assumptions C04_constructor.
 (* bounds in the right order are kept, bounds inverted everywhere (the image under an antitone map) are switched back *)
 Theorem C04_constructor_ordered steps plo phi b (l r : list R) p : ple l r ->
@@ -46,3 +53,4 @@ Theorem C04_moments_in_range (xs ws : list R) a b : length xs = length ws -> For
   let m := dot ws xs in a <= m <= b /\ 0 <= dot ws (map (fun x => (x - m) * (x - m)) xs) <= (b - a) * (b - a) / 4.
 Proof. exact (moments_in_range xs ws a b). Qed.
 Print Assumptions C04_moments_in_range.
+Print Assumptions C04_constructor_is_translated.
